@@ -29,72 +29,75 @@ def _blocks_of(path):
 
 
 def _guard_cases(ctx, lines):
-    """vacuity guards: copies of a recorded block (with the on-the-fly route and histories) with one field altered;
-    each must be rejected at the altered line.  Returns [(name, path, line)]"""
+    """vacuity guards: copies of a recorded block (with the on-the-fly route and histories) with recorded fields altered;
+    every alteration must be rejected at its line (with its class where one is given).  Alterations of lines that are
+    independent observations (Bin, Scaled, OtfGroup) share one copy; each alteration of a history has its own copy.
+    Returns [(name, path, line, class or None)]"""
     cases = []
     e = [json.loads(l) for l in lines]
-    # keep the first history only (the guards are re-validated in every run)
-    hs = [i for i, r in enumerate(e) if r["e"] == "HistStart"]
-    if len(hs) > 1:
-        e = e[:hs[1]]
+    shared = copy.deepcopy(e)
+    shared_path = os.path.join(ctx.work, "guard-independent-lines.ndjson")
+    used = set()
 
-    def mk(name, i, f, cls=None):
+    def on_shared(name, pred, f, cls=None):
+        for i, r in enumerate(e):
+            if i not in used and pred(r):
+                used.add(i)
+                f(shared[i])
+                cases.append((name, shared_path, i + 1, cls))
+                return
+        raise lib.ModelFailure("vacuity guards: no suitable recorded line for " + name)
+
+    def own(name, i, f, cls=None):
         m = copy.deepcopy(e)
         f(m[i])
         p = os.path.join(ctx.work, "guard-%s.ndjson" % name)
         lib.write_ndjson(p, m)
         cases.append((name, p, i + 1, cls))
 
-    def first(pred):
-        for i, r in enumerate(e):
-            if pred(r):
-                return i
-        raise lib.ModelFailure("vacuity guards: no suitable recorded line")
-    i = first(lambda r: r["e"] == "Bin" and len(r["B"]) > 3 and r["FS"] and r["BG"])
-    mk("back-entry-2ulp", i, lambda r: r["B"][2].__setitem__(1, r["B"][2][1] + 2))
-    mk("subset-row-moved", i, lambda r: r["FS"][0].__setitem__(1, (r["FS"][0][1] + 1) % r["FS"][0][0]))
-    mk("group-row-dropped", i, lambda r: r["BG"].pop())
-    j = first(lambda r: r["e"] == "Bin" and r["FW"])
-    mk("window-entry-dropped", j, lambda r: r["FW"][0][1].pop())
-    mk("on-the-fly-1pc", i, lambda r: r["O"][1].__setitem__(2, int(r["O"][1][2] * 1.01) + 6))
-    mk("scaled-back-entry-mantissa", i, lambda r: r["BK"][0][1][1].__setitem__(1, r["BK"][0][1][1][1] + 1), "back-not-homogeneous")
-    mk("scaled-forward-entry-dropped", i, lambda r: r["FK"][-1][1].pop(), "forward-not-homogeneous")
+    def rich(r):
+        return r["e"] == "Bin" and len(r["B"]) > 3 and r["FS"] and r["BG"] and len(r["O"]) > 1 and r["BK"] and len(r["BK"][0][1]) > 1
+    on_shared("back-entry-2ulp", rich, lambda r: r["B"][2].__setitem__(1, r["B"][2][1] + 2), "F-differs-from-Bt")
+    on_shared("subset-row-moved", rich, lambda r: r["FS"][0].__setitem__(1, (r["FS"][0][1] + 1) % r["FS"][0][0]), "forward-subset")
+    on_shared("group-row-dropped", rich, lambda r: r["BG"].pop(), "back-group")
+    on_shared("window-entry-dropped", lambda r: r["e"] == "Bin" and r["FW"], lambda r: r["FW"][0][1].pop(), "forward-window")
+    on_shared("on-the-fly-1pc", rich, lambda r: r["O"][1].__setitem__(2, int(r["O"][1][2] * 1.01) + 6), "on-the-fly")
+    on_shared("scaled-back-entry-mantissa", rich, lambda r: r["BK"][0][1][1].__setitem__(1, r["BK"][0][1][1][1] + 1), "back-not-homogeneous")
+    on_shared("scaled-forward-entry-dropped", rich, lambda r: r["FK"][-1][1].pop(), "forward-not-homogeneous")
+    # a scaled call whose result is not the exponent-shifted result of the unscaled call: one voxel lost (set to zero)
+    on_shared("scaled-back-voxel-lost", lambda r: r["e"] == "Scaled" and not r["fwd"] and any(r["ord2"]),
+              lambda r: r["ord2"].__setitem__([n for n, v in enumerate(r["ord2"]) if v != 0][0], 0), "back-not-homogeneous")
+    # a deviation of the on-the-fly group call (one bin of the window keeps its old value)
+
+    def big(r):
+        return max(abs(r["fx"][n] - r["y"][n] * 65536) for n in range(len(r["y"])) if r["y"][n] != 0)
+    on_shared("on-the-fly-group-bin-kept", lambda r: r["e"] == "OtfGroup" and any(r["y"]) and big(r) > 32768,
+              lambda r: (lambda n: r["fx"].__setitem__(n, r["y"][n] * 65536))(
+                  max((abs(r["fx"][n] - r["y"][n] * 65536), n) for n in range(len(r["y"])) if r["y"][n] != 0)[1]), "on-the-fly-group")
+    lib.write_ndjson(shared_path, shared)
 
     def prevdata(k):
         return [r for r in e[:k] if "ord" in r and r["e"] in ("SetData", "ForwardSubset", "ForwardGroup")][-1]
     done = set()
     for k, r in enumerate(e):
+        if r["e"] == "HistStart" and r["h"] > 0:
+            break
         if r["e"] == "ForwardSubset" and r["N"] > 1:
             pd = prevdata(k)
             same = [q for q in range(len(pd["ord"])) if pd["ord"][q] == r["ord"][q] and pd["ord"][q] != 0]
             zeros = [q for q in range(len(pd["ord"])) if r["ord"][q] == 0 and pd["ord"][q] != 0]
             if not r["zero"] and same and "frame" not in done:
                 done.add("frame")
-                mk("untouched-bin-1ulp", k, lambda x, q=same[0]: x["ord"].__setitem__(q, x["ord"][q] + 1))
+                own("untouched-bin-1ulp", k, lambda x, q=same[0]: x["ord"].__setitem__(q, x["ord"][q] + 1), "forward-subset-frame")
             if r["zero"] and zeros and "zero" not in done:
                 done.add("zero")
-                mk("zeroed-bin-kept", k, lambda x, q=zeros[0], v=pd: (x["ord"].__setitem__(q, v["ord"][q]), x["fx"].__setitem__(q, v["fx"][q])))
+                own("zeroed-bin-kept", k, lambda x, q=zeros[0], v=pd: (x["ord"].__setitem__(q, v["ord"][q]), x["fx"].__setitem__(q, v["fx"][q])), "forward-subset-frame")
         if r["e"] in ("GetOutput", "BackInto") and "out" not in done and max(abs(v) for v in r["fx"]) > 65536:
             done.add("out")
             q = [n for n, v in enumerate(r["fx"]) if abs(v) > 65536][0]
-            mk("output-voxel-1pc", k, lambda x, q=q: x["fx"].__setitem__(q, int(x["fx"][q] * 1.01)))
+            own("output-voxel-1pc", k, lambda x, q=q: x["fx"].__setitem__(q, int(x["fx"][q] * 1.01)), "output-differs")
     if len(done) < 2:
         raise lib.ModelFailure("vacuity guards: the recorded history contains no suitable events (%s)" % sorted(done))
-    # a deviation of the on-the-fly group call other than the known finding (one bin of the window keeps its old value)
-    e = [json.loads(l) for l in lines]
-    for k, r in enumerate(e):
-        if r["e"] == "OtfGroup":
-            ch = sorted((-abs(r["fx"][n] - r["y"][n] * 65536), n) for n in range(len(r["y"])) if r["y"][n] != 0)
-            if ch and -ch[0][0] > 32768:
-                mk("on-the-fly-group-bin-kept", k, lambda x, n=ch[0][1]: x["fx"].__setitem__(n, x["y"][n] * 65536), "on-the-fly-group")
-                break
-    # a scaled call whose result is not the exponent-shifted result of the unscaled call: one datum lost (set to zero)
-    for k, r in enumerate(e):
-        if r["e"] == "Scaled" and not r["fwd"]:
-            nz = [n for n, v in enumerate(r["ord2"]) if v != 0]
-            if nz:
-                mk("scaled-back-voxel-lost", k, lambda x, n=nz[0]: x["ord2"].__setitem__(n, 0), "back-not-homogeneous")
-                break
     return cases
 
 
@@ -158,9 +161,11 @@ def run(ctx):
     def val(p):
         return (p,) + lib.validate_trace("Trace_Projectors", p, timeout=2400, heap="3g")
     with cf.ThreadPoolExecutor(W) as ex:
-        allres = list(ex.map(val, traces + [g[1] for g in guards]))
+        gpaths = sorted({g[1] for g in guards})
+        allres = list(ex.map(val, traces + gpaths))
     res = allres[:len(traces)]
-    ctx.notes.append("trace validation: %d TLC runs (+ %d guards), %.0f s" % (len(traces), len(guards), time.time() - t0))
+    gres = {p: r for (p, ok, r, at) in allres[len(traces):]}
+    ctx.notes.append("trace validation: %d TLC runs (+ %d guard runs), %.0f s" % (len(traces), len(gres), time.time() - t0))
     known_ids = {k["id"] for k in ctx.known}
     nblocks = nhist = nbins = nevents = 0
     for (p, ok, r, at) in res:
@@ -222,13 +227,14 @@ def run(ctx):
                 len(newbad), ", ".join(classes), ln0 - blk[0][0], c0.get("name", "?"), json.dumps(brief)[:260]), rp)
     # the vacuity guards (only meaningful when the recorded block itself was accepted)
     if not ctx.violations:
-        for g, (p, ok, r, at) in zip(guards, allres[len(traces):]):
-            lines = [ln for ln, cls in lib.unexplained(r) if g[3] is None or cls == g[3]]
+        for g in guards:
+            lines = [ln for ln, cls in lib.unexplained(gres[g[1]]) if g[3] is None or cls == g[3]]
             if g[2] not in lines:
-                raise lib.ModelFailure("vacuity guard: Trace_Projectors accepted a corrupted trace (%s, line %d; reported %s)" % (g[0], g[2], lib.unexplained(r)[:5]))
+                raise lib.ModelFailure("vacuity guard: Trace_Projectors accepted a corrupted trace (%s, line %d; reported %s)" % (g[0], g[2], lib.unexplained(gres[g[1]])[:12]))
+        for p in gres:
             os.remove(p)
         if guards:
-            ctx.notes.append("vacuity guards: Trace_Projectors rejects %d corrupted copies of a recorded block at the altered line (%s)" % (len(guards), ", ".join(g[0] for g in guards)))
+            ctx.notes.append("vacuity guards: Trace_Projectors rejects %d alterations of a recorded block, each at the altered line with the expected class (%s)" % (len(guards), ", ".join(g[0] for g in guards)))
     # ------------------------------------------------------------------ 4. the model checks
     r = fut_main.result()
     ctx.mc_must_pass(r, "Projectors: theorems on every piece + frame conditions along all histories (%s)" % ("depth 3, N<=2, 2 classes" if q else "depth 3, N<=3, 5 classes"), "MC_Projectors")
